@@ -31,6 +31,10 @@ type e2ShardResult struct {
 	Problems []vsched.Found
 	Capped   string
 	Sample   []string
+	// FirstRun: a problem seen in the very first execution of this (fresh) process and not in the second run
+	// of the same schedule: state in package-level variables of the code under test outlives an execution
+	// (a cache filled by the first one). Every shard is a fresh process and reports it independently.
+	FirstRun *vsched.Problem
 }
 
 type e2Totals struct {
@@ -87,12 +91,16 @@ func runE2(rep *common.Reporter, scs []*e2Scenario, deadline time.Duration) (*e2
 				fmt.Fprintf(os.Stderr, "NONDETERMINISM in scenario %s: two runs of the default schedule differ\n%v\n%v\n", s.Name, a.Log, b.Log)
 				os.Exit(2)
 			}
+			var first *vsched.Problem
+			if pa, pb := s.Sc.Judge(a), s.Sc.Judge(b); pa != nil && pb == nil {
+				first = pa
+			}
 			cfg := vsched.ExploreConfig{Bound: s.Bound, Delay: s.Delay, Shard: shard, NShards: nsh, SplitDepth: 4 * nsh}
 			if deadline > 0 {
 				cfg.Deadline = time.Now().Add(deadline)
 			}
 			c := vsched.Explore(s.Sc, cfg)
-			common.EmitResult(e2ShardResult{s.Name, c.Execs, c.Points, c.Steps, c.MaxDepth, c.Outcomes, c.Problems, c.Capped, c.SampleTrace})
+			common.EmitResult(e2ShardResult{s.Name, c.Execs, c.Points, c.Steps, c.MaxDepth, c.Outcomes, c.Problems, c.Capped, c.SampleTrace, first})
 		}
 		return nil, true
 	}
@@ -107,6 +115,8 @@ func runE2(rep *common.Reporter, scs []*e2Scenario, deadline time.Duration) (*e2
 		capped               []string
 		problems             []vsched.Found
 		sample               []string
+		first                map[string]int
+		firstDetail          map[string]string
 	}
 	m := map[string]*agg{}
 	ok := common.RunShards(runtime.NumCPU(), nil, func(sh int, raw json.RawMessage) {
@@ -133,6 +143,13 @@ func runE2(rep *common.Reporter, scs []*e2Scenario, deadline time.Duration) (*e2
 			a.capped = append(a.capped, r.Capped)
 		}
 		a.problems = append(a.problems, r.Problems...)
+		if r.FirstRun != nil {
+			if a.first == nil {
+				a.first, a.firstDetail = map[string]int{}, map[string]string{}
+			}
+			a.first[r.FirstRun.Kind]++
+			a.firstDetail[r.FirstRun.Kind] = r.FirstRun.Detail
+		}
 		if len(r.Sample) > 0 {
 			a.sample = r.Sample
 		}
@@ -177,6 +194,25 @@ func runE2(rep *common.Reporter, scs []*e2Scenario, deadline time.Duration) (*e2
 			}
 			nviol++
 			rep.Report(s.Name, f.Problem.Kind, f.Problem.Detail, map[string]interface{}{"choices": f.Choices, "log": f.Log}, nil)
+		}
+		// problems that only the first execution of a fresh process shows (see e2ShardResult.FirstRun): every
+		// shard is an independent reproduction
+		for kind, n := range a.first {
+			already := false
+			for k := range seen {
+				if strings.HasPrefix(k, kind+"|") {
+					already = true
+				}
+			}
+			if already || n < 2 {
+				continue
+			}
+			if _, known := rep.CheckKnown(kind, a.firstDetail[kind]); known {
+				continue
+			}
+			nviol++
+			rep.Report(s.Name, kind, fmt.Sprintf("%s\n(in the first execution of each of %d fresh processes under the default schedule, and not when the same schedule runs again in the same process: the state involved is kept in package-level variables that outlive an execution)", a.firstDetail[kind], n),
+				map[string]interface{}{"choices": []int{}, "first_execution_only": true}, nil)
 		}
 		bd := fmt.Sprint(s.Bound)
 		if s.Bound < 0 {
